@@ -1,4 +1,27 @@
-(* Case runner and spec checker (T3) for C01 — stub. *)
+(* Case runner and spec checker (T3) for C01. *)
 From WI Require Import Lib.Base Lib.Info Model.Safety.
-Definition run_C01 (op : bytes) (input : arg) : arg := AL [].
-Definition check_C01 (op : bytes) (input impl : arg) : arg := AL [].
+Open Scope N_scope.
+
+(* The model's prediction for every input: inspection terminates normally (outcome class 0),
+   the CLI prints one report (starting "path: ", ending in a line terminator) and exits 0. *)
+Definition run_C01 (op : bytes) (input : arg) : arg :=
+  if bytes_eqb op (bs "inspect") then AL [AZ 0; AB []]
+  else if bytes_eqb op (bs "cli") then AL [AZ 0; AZ 1; AZ 1]
+  else AL [].
+
+Definition check_C01 (op : bytes) (input impl : arg) : arg :=
+  if bytes_eqb op (bs "inspect") then
+    match arg_Z (arg_nth 0 impl) with
+    | 0%Z => AL []
+    | 2%Z => AB (bs "panic reachable from file content: " ++ arg_bytes (arg_nth 1 impl))
+    | 3%Z => AB (bs "fatal runtime error reachable from file content: " ++ arg_bytes (arg_nth 1 impl))
+    | 4%Z => AS "inspection did not terminate within the deadline"
+    | 5%Z => AS "inspection exhausted the memory limit"
+    | _ => AS "malformed observation"
+    end
+  else if bytes_eqb op (bs "cli") then
+    if negb (Z.eqb (arg_Z (arg_nth 0 impl)) 0) then AS "command-line tool exited with non-zero status"
+    else if negb (arg_bool (arg_nth 1 impl)) then AS "command-line tool did not print a report for the file"
+    else if negb (arg_bool (arg_nth 2 impl)) then AS "report not terminated"
+    else AL []
+  else AL [].
